@@ -460,7 +460,21 @@ impl Tracker {
     }
     for (ino, n) in &dirty {
       // all persisted except (a suffix of) this inode's data
-      for keep in 0..*n {
+      // (inodes with many un-synced data operations - a log after a burst of
+      // adds, a file written in many chunks: both ends, the middle and a
+      // seeded sample instead of every prefix)
+      let keeps: Vec<usize> = if *n <= 12 {
+        (0..*n).collect()
+      } else {
+        let mut v = vec![0, 1, 2, *n / 2, *n - 3, *n - 2, *n - 1];
+        for _ in 0..3 {
+          v.push(rng.usize(*n));
+        }
+        v.sort_unstable();
+        v.dedup();
+        v
+      };
+      for keep in keeps {
         let mut m = BTreeMap::new();
         m.insert(
           *ino,
